@@ -465,10 +465,13 @@ func normalizePackage(repo, relDir string, p *packages.Package, imp types.Import
 			keep := map[string]bool{}
 			before := map[string]bool{}
 			if f0, err := parser.ParseFile(token.NewFileSet(), "x.go", src[names[best.file]], 0); err == nil {
-				for _, c := range findIIFEsAll(f0) {
+				for i, c := range findIIFEsAll(f0) {
+					before[fmt.Sprint(i)] = true
+					_ = c
+				}
+				for _, c := range findIIFEs(f0) {
 					lo, hi := c.call.Pos()-f0.FileStart, c.call.End()-f0.FileStart
 					keep[string(src[names[best.file]][lo:hi])] = true
-					before[string(src[names[best.file]][lo:hi])] = true
 				}
 			}
 			for k := 0; k < 8; k++ {
@@ -493,12 +496,9 @@ func normalizePackage(repo, relDir string, p *packages.Package, imp types.Import
 			// its body just as the helper did: such a call is left as it was
 			left := false
 			if f1, err := parser.ParseFile(token.NewFileSet(), "x.go", content, 0); err == nil {
-				for _, c := range findIIFEsAll(f1) {
-					lo, hi := c.call.Pos()-f1.FileStart, c.call.End()-f1.FileStart
-					if !before[string(content[lo:hi])] {
-						left = true
-					}
-				}
+				// (counted, not compared by text: the text of a literal that was there before changes
+				// when something is inlined inside it; the operands of go and defer are not counted)
+				left = len(findIIFEsAll(f1)) > len(before)
 			}
 			if left {
 				failed[best.callee.FullName()+"@"+best.encl] = true
@@ -602,8 +602,18 @@ type iife struct {
 // findIIFEsAll: every call of a function literal, whatever its parameters.
 func findIIFEsAll(f *ast.File) []iife {
 	var out []iife
+	spawned := map[*ast.CallExpr]bool{}
 	ast.Inspect(f, func(n ast.Node) bool {
-		if c, ok := n.(*ast.CallExpr); ok {
+		switch x := n.(type) {
+		case *ast.GoStmt:
+			spawned[x.Call] = true
+		case *ast.DeferStmt:
+			spawned[x.Call] = true
+		}
+		return true
+	})
+	ast.Inspect(f, func(n ast.Node) bool {
+		if c, ok := n.(*ast.CallExpr); ok && !spawned[c] {
 			if l, ok := c.Fun.(*ast.FuncLit); ok {
 				out = append(out, iife{c, l})
 			}
